@@ -13,19 +13,23 @@ Record cfg := { reload_updates_initial : bool }.   (* ReloadTask persists Initia
 Definition cfg_now := {| reload_updates_initial := true |}.
 Definition cfg_skip := {| reload_updates_initial := false |}.
 
-Record st := { stored : option tstate; mem : option tstate; dead : bool }.
-Definition init : st := {| stored := None; mem := None; dead := false |}.
+(* ent: the replicate entity of the task's target is registered (its loops, dispatchers and downstream client are alive) *)
+Record st := { stored : option tstate; mem : option tstate; dead : bool; ent : bool }.
+Definition init : st := {| stored := None; mem := None; dead := false; ent := false |}.
 
 Inductive label :=
 | LCreate (cut : option nat)
 | LPause (cut : option nat)
 | LResume (cut : option nat)
+| LResumeFail                 (* a resume whose store update is refused: the task stays paused *)
 | LDelete
 | LRestart.
 
 Definition is_cut (cut : option nat) (n : nat) : bool := match cut with Some m => Nat.eqb m n | None => false end.
-Definition die (s : st) : st := {| stored := stored s; mem := mem s; dead := true |}.
-Definition both (x : option tstate) : st := {| stored := x; mem := x; dead := false |}.
+Definition die (s : st) : st := {| stored := stored s; mem := mem s; dead := true; ent := false |}.
+(* the entity lives exactly while the task runs *)
+Definition both (x : option tstate) : st :=
+  {| stored := x; mem := x; dead := false; ent := match x with Some SRunning => true | _ => false end |}.
 
 (* one write of the task record, then the memory follows; the process may die before or after the write *)
 Definition one_write (s : st) (x : tstate) (cut : option nat) : st :=
@@ -40,7 +44,7 @@ Definition step (g : cfg) (s : st) (l : label) : st :=
       | Some SRunning => both (Some SRunning)
       | Some SPaused => both (Some SRunning)
       | Some SInitial => if reload_updates_initial g then both (Some SRunning)
-                         else {| stored := Some SInitial; mem := Some SRunning; dead := false |}
+                         else {| stored := Some SInitial; mem := Some SRunning; dead := false; ent := true |}
       end
   | _ =>
     if dead s then s else
@@ -55,6 +59,10 @@ Definition step (g : cfg) (s : st) (l : label) : st :=
         end
     | LPause cut => match mem s with Some SRunning => one_write s SPaused cut | _ => s end
     | LResume cut => match mem s with Some SPaused => one_write s SRunning cut | _ => s end
+    | LResumeFail =>
+        (* the start is rolled back: readers quit, the reference is given back; the entity it was registered for stays, idle,
+           until the next pause or delete of a task of the target collects it *)
+        match mem s with Some SPaused => {| stored := stored s; mem := mem s; dead := false; ent := true |} | _ => s end
     | LDelete => match mem s with Some _ => both None | None => s end
     | LRestart => s
     end
@@ -65,7 +73,7 @@ Fixpoint run (g : cfg) (s : st) (ls : list label) : st :=
 
 (* observation after every label: persisted state, in-memory state (None while the process is dead), state reported by get *)
 Definition code (x : option tstate) : nat := match x with None => 0 | Some SInitial => 1 | Some SRunning => 2 | Some SPaused => 3 end.
-Definition obs := (nat * nat * bool)%type.     (* stored, memory, dead *)
-Definition observe (s : st) : obs := (code (stored s), if dead s then 0 else code (mem s), dead s).
+Definition obs := (nat * nat * bool * bool)%type.     (* stored, memory, dead, entity registered *)
+Definition observe (s : st) : obs := (code (stored s), if dead s then 0 else code (mem s), dead s, ent s).
 Fixpoint trace (g : cfg) (s : st) (ls : list label) : list obs :=
   match ls with [] => [] | l :: r => let s' := step g s l in observe s' :: trace g s' r end.
